@@ -105,9 +105,15 @@ impl Read for CaseReader {
 struct RoomWriter {
     data: Arc<Mutex<Vec<u8>>>,
     room: Option<u64>,
+    // a writer may accept fewer bytes than it is offered (pipes, terminals do): at most `chunk` bytes per call
+    chunk: Option<u64>,
 }
 impl Write for RoomWriter {
     fn write(&mut self, buf: &[u8]) -> std::io::Result<usize> {
+        let buf = match self.chunk {
+            Some(c) if (buf.len() as u64) > c && c > 0 => &buf[..c as usize],
+            _ => buf,
+        };
         let mut d = self.data.lock().unwrap();
         match self.room {
             None => {
@@ -188,10 +194,12 @@ fn run_case(case: &Value, tmpdir: &str) -> Value {
     let stdout: Rc<RefCell<dyn Write + Send>> = Rc::new(RefCell::new(RoomWriter {
         data: out.clone(),
         room: case["out_room"].as_u64(),
+        chunk: case["out_chunk"].as_u64(),
     }));
     let stderr: Rc<RefCell<dyn Write + Send>> = Rc::new(RefCell::new(RoomWriter {
         data: err.clone(),
         room: case["err_room"].as_u64(),
+        chunk: case["out_chunk"].as_u64(),
     }));
     let inp0 = if use_files { None } else { inputs.get(0).cloned() };
     let sh = shared.clone();
